@@ -418,10 +418,16 @@ type funcContext struct {
 	labelPc         map[int]int
 	gotosCount      int
 	unresolvedGotos map[int]*gotoLabelDesc
+	exprDepth       int // nesting of the expression being compiled, enclosing functions included
 }
 
 func newFuncContext(sourcename string, parent *funcContext) *funcContext {
+	depth := 0
+	if parent != nil {
+		depth = parent.exprDepth
+	}
 	fc := &funcContext{
+		exprDepth:       depth,
 		Proto:           newFunctionProto(sourcename),
 		Code:            &codeStore{make([]uint32, 0, 1024), make([]int, 0, 1024), 0},
 		Parent:          parent,
@@ -1167,7 +1173,18 @@ func compileGotoStmt(context *funcContext, stmt *ast.GotoStmt) { // {{{
 	context.FindLabel(context.Block, label, context.gotosCount-1)
 } // }}}
 
+// maxExprDepth bounds the nesting of expressions (and of function bodies inside expressions): the compiler
+// recurses once per level, and an unbounded recursion ends in a Go stack overflow that nothing can recover.
+const maxExprDepth = 10000
+
+func leaveExpr(context *funcContext) { context.exprDepth-- }
+
 func compileExpr(context *funcContext, reg int, expr ast.Expr, ec *expcontext) int { // {{{
+	context.exprDepth++
+	defer leaveExpr(context)
+	if context.exprDepth > maxExprDepth {
+		raiseCompileError(context, sline(expr), "chunk has too many syntax levels")
+	}
 	code := context.Code
 	sreg := savereg(ec, reg)
 	sused := 1
@@ -1308,11 +1325,15 @@ func compileExprWithMVPropagation(context *funcContext, expr ast.Expr, reg *int,
 	compileExprWithPropagation(context, expr, reg, save, context.Code.PropagateMV)
 } // }}}
 
-func constFold(exp ast.Expr) ast.Expr { // {{{
+func constFold(exp ast.Expr, depth int) ast.Expr { // {{{
+	if depth > maxExprDepth {
+		// too deep to recurse into: left unfolded, compileExpr reports the nesting
+		return exp
+	}
 	switch expr := exp.(type) {
 	case *ast.ArithmeticOpExpr:
-		lvalue, lisconst := lnumberValue(constFold(expr.Lhs))
-		rvalue, risconst := lnumberValue(constFold(expr.Rhs))
+		lvalue, lisconst := lnumberValue(constFold(expr.Lhs, depth+1))
+		rvalue, risconst := lnumberValue(constFold(expr.Rhs, depth+1))
 		if lisconst && risconst {
 			switch expr.Operator {
 			case "+":
@@ -1334,7 +1355,7 @@ func constFold(exp ast.Expr) ast.Expr { // {{{
 			return expr
 		}
 	case *ast.UnaryMinusOpExpr:
-		expr.Expr = constFold(expr.Expr)
+		expr.Expr = constFold(expr.Expr, depth+1)
 		if value, ok := lnumberValue(expr.Expr); ok {
 			return &constLValueExpr{Value: LNumber(-value)}
 		}
@@ -1462,7 +1483,7 @@ func compileTableExpr(context *funcContext, reg int, ex *ast.TableExpr, ec *expc
 } // }}}
 
 func compileArithmeticOpExpr(context *funcContext, reg int, expr *ast.ArithmeticOpExpr, ec *expcontext) { // {{{
-	exp := constFold(expr)
+	exp := constFold(expr, 0)
 	if ex, ok := exp.(*constLValueExpr); ok {
 		exp.SetLine(sline(expr))
 		compileExpr(context, reg, ex, ec)
@@ -1520,7 +1541,7 @@ func compileUnaryOpExpr(context *funcContext, reg int, expr ast.Expr, ec *expcon
 	var operandexpr ast.Expr
 	switch ex := expr.(type) {
 	case *ast.UnaryMinusOpExpr:
-		exp := constFold(ex)
+		exp := constFold(ex, 0)
 		if lvexpr, ok := exp.(*constLValueExpr); ok {
 			exp.SetLine(sline(expr))
 			compileExpr(context, reg, lvexpr, ec)
